@@ -79,6 +79,13 @@ where
     /// Creates a new `MerkleTree`
     /// depth - the height of the tree made only of hash nodes. 2^depth is the maximum number of leaves hash nodes
     fn new(depth: usize, initial_leaf: FrOf<Self::Hasher>, _config: Self::Config) -> Result<Self> {
+        #[cfg(zerokit_verif)]
+        if let Some(sc) = crate::verif_trace::enter() {
+            let r = Self::new(depth, initial_leaf, _config);
+            let init = crate::verif_trace::q(&initial_leaf);
+            sc.finish_new("full", r.as_ref().ok().map(|t| (t, t.verif_id())), depth, init);
+            return r;
+        }
         // Compute cache node values, leaf to root
         let cached_nodes = successors(Some(initial_leaf), |prev| Some(H::hash(&[*prev, *prev])))
             .take(depth + 1)
@@ -132,6 +139,14 @@ where
 
     // Sets a leaf at the specified tree index
     fn set(&mut self, leaf: usize, hash: FrOf<Self::Hasher>) -> Result<()> {
+        #[cfg(zerokit_verif)]
+        if let Some(sc) = crate::verif_trace::enter() {
+            let args = format!("\"i\":{},\"v\":{}", leaf, crate::verif_trace::q(&hash));
+            let sc = sc.call::<Self>(self.verif_id(), "full", "set", args);
+            let r = self.set(leaf, hash);
+            sc.finish(self, r.is_ok(), &[leaf]);
+            return r;
+        }
         self.set_range(leaf, once(hash))?;
         self.next_index = max(self.next_index, leaf + 1);
         Ok(())
@@ -188,6 +203,16 @@ where
         start: usize,
         hashes: I,
     ) -> Result<()> {
+        #[cfg(zerokit_verif)]
+        if let Some(sc) = crate::verif_trace::enter() {
+            let vs = hashes.into_iter().collect::<Vec<_>>();
+            let args = format!("\"s\":{},\"vs\":{}", start, crate::verif_trace::q_list(&vs));
+            let sc = sc.call::<Self>(self.verif_id(), "full", "range", args);
+            let touched = (start..start.saturating_add(vs.len())).collect::<Vec<_>>();
+            let r = self.set_range(start, vs.into_iter());
+            sc.finish(self, r.is_ok(), &touched);
+            return r;
+        }
         let index = self.capacity() + start - 1;
         let mut count = 0;
         // first count number of hashes, and check that they fit in the tree
@@ -213,6 +238,23 @@ where
         I: IntoIterator<Item = FrOf<Self::Hasher>>,
         J: IntoIterator<Item = usize>,
     {
+        #[cfg(zerokit_verif)]
+        if let Some(sc) = crate::verif_trace::enter() {
+            let vs = leaves.into_iter().collect::<Vec<_>>();
+            let rem = indices.into_iter().collect::<Vec<_>>();
+            let args = format!(
+                "\"s\":{},\"vs\":{},\"rem\":{}",
+                start,
+                crate::verif_trace::q_list(&vs),
+                crate::verif_trace::n_list(&rem)
+            );
+            let sc = sc.call::<Self>(self.verif_id(), "full", "override", args);
+            let mut touched = (start..start.saturating_add(vs.len())).collect::<Vec<_>>();
+            touched.extend(rem.iter().copied());
+            let r = self.override_range(start, vs.into_iter(), rem.into_iter());
+            sc.finish(self, r.is_ok(), &touched);
+            return r;
+        }
         let indices = indices.into_iter().collect::<Vec<_>>();
         let leaves_vec = leaves.into_iter().collect::<Vec<_>>();
 
@@ -236,12 +278,28 @@ where
 
     // Sets a leaf at the next available index
     fn update_next(&mut self, leaf: FrOf<Self::Hasher>) -> Result<()> {
+        #[cfg(zerokit_verif)]
+        if let Some(sc) = crate::verif_trace::enter() {
+            let args = format!("\"v\":{}", crate::verif_trace::q(&leaf));
+            let sc = sc.call::<Self>(self.verif_id(), "full", "append", args);
+            let at = self.leaves_set();
+            let r = self.update_next(leaf);
+            sc.finish(self, r.is_ok(), &[at]);
+            return r;
+        }
         self.set(self.next_index, leaf)?;
         Ok(())
     }
 
     // Deletes a leaf at a certain index by setting it to its default value (next_index is not updated)
     fn delete(&mut self, index: usize) -> Result<()> {
+        #[cfg(zerokit_verif)]
+        if let Some(sc) = crate::verif_trace::enter() {
+            let sc = sc.call::<Self>(self.verif_id(), "full", "delete", format!("\"i\":{}", index));
+            let r = self.delete(index);
+            sc.finish(self, r.is_ok(), &[index]);
+            return r;
+        }
         // We reset the leaf only if we previously set a leaf at that index
         if index < self.next_index {
             self.set(index, H::default_leaf())?;
@@ -399,5 +457,20 @@ where
 {
     fn fmt(&self, f: &mut std::fmt::Formatter<'_>) -> std::fmt::Result {
         f.debug_tuple("Proof").field(&self.0).finish()
+    }
+}
+
+/// Verification hook H2 (compiled only with `--cfg zerokit_verif`): instance identity and drop event
+#[cfg(zerokit_verif)]
+impl<H: Hasher> FullMerkleTree<H> {
+    fn verif_id(&self) -> usize {
+        self.nodes.as_ptr() as usize
+    }
+}
+
+#[cfg(zerokit_verif)]
+impl<H: Hasher> Drop for FullMerkleTree<H> {
+    fn drop(&mut self) {
+        crate::verif_trace::dropped(self.verif_id(), "full");
     }
 }
